@@ -5,7 +5,7 @@
 (***************************************************************************)
 EXTENDS DavTree, Json, TLCExt, IOUtils, SequencesExt
 
-CONSTANTS Names, Contents, MaxDepth, Probes, Rich
+CONSTANTS Names, Contents, MaxDepth, Probes, Rich, MaxNodes, Slim
 
 PathsUpTo(n) == UNION { [1..k -> Names] : k \in 0..n }
 TreePaths == PathsUpTo(MaxDepth)
@@ -23,10 +23,15 @@ SimpleReqs == {Base(m, p) : m \in {"DELETE", "MKCOL", "GET", "HEAD", "OPTIONS"},
 MkcolBody == {[Base("MKCOL", p) EXCEPT !.ctype = "xml"] : p \in ReqPaths}
 PropfindReqs == {[Base("PROPFIND", p) EXCEPT !.depth = d, !.pform = f] :
                    p \in ReqPaths, d \in {"absent", "0", "1", "infinity"}, f \in {"empty", "fileinfo"}}
+\* Slim instances (deeper trees) keep one spelling per semantic choice of Depth and Overwrite
 CopyReqs == {[Base("COPY", p) EXCEPT !.dform = "path", !.dp = q, !.depth = d, !.ow = o] :
-               p \in ReqPaths, q \in ReqPaths, d \in {"absent", "0", "infinity"}, o \in {"absent", "T", "F"}}
+               p \in ReqPaths, q \in ReqPaths,
+               d \in (IF Slim THEN {"absent", "0"} ELSE {"absent", "0", "infinity"}),
+               o \in (IF Slim THEN {"T", "F"} ELSE {"absent", "T", "F"})}
 MoveReqs == {[Base("MOVE", p) EXCEPT !.dform = "path", !.dp = q, !.depth = d, !.ow = o] :
-               p \in ReqPaths, q \in ReqPaths, d \in {"absent", "infinity"}, o \in {"absent", "T", "F"}}
+               p \in ReqPaths, q \in ReqPaths,
+               d \in (IF Slim THEN {"absent"} ELSE {"absent", "infinity"}),
+               o \in (IF Slim THEN {"absent", "F"} ELSE {"absent", "T", "F"})}
 \* header-validity dimension (independent of the tree): a few path pairs, every header class
 HdrPaths == {p \in TreePaths : Len(p) <= 1}
 HdrReqs == {[Base(m, p) EXCEPT !.dform = f, !.dp = q, !.depth = d, !.ow = o] :
@@ -44,14 +49,14 @@ Requests == PutReqs \cup SimpleReqs \cup MkcolBody \cup PropfindReqs \cup CopyRe
 VARIABLES tree, last
 vars == <<tree, last>>
 
-TooDeep(t) == \E p \in DOMAIN t : Len(p) > MaxDepth
+TooDeep(t) == (\E p \in DOMAIN t : Len(p) > MaxDepth) \/ Cardinality(DOMAIN t) > MaxNodes
 
 Init == tree = (Root :> Coll) /\ last = [ok |-> TRUE, st |-> {0}, m |-> "", cond |-> TRUE]
 \* C02: PUT whose body breaks off (the offset and the failure mode are concretisation dimensions of the recorder)
 FaultReqs == {[Base("PUT", p) EXCEPT !.c = c, !.fault = TRUE] : p \in ReqPaths, c \in Contents \cup {"B70000"}}
 \* C04: the conditional-header truth table
 CondClasses == {"unset", "star", "cur", "stale", "other", "bad"}
-CondReqs == {[Base(m, p) EXCEPT !.c = (IF m = "PUT" THEN "y" ELSE ""), !.ifm = a, !.ifnm = b] :
+CondReqs == {[Base(m, p) EXCEPT !.c = (IF m = "PUT" THEN (CHOOSE c \in Contents : TRUE) ELSE ""), !.ifm = a, !.ifnm = b] :
                m \in {"PUT", "DELETE"}, p \in ReqPaths, a \in CondClasses, b \in CondClasses}
 \* the state machine steps over every write and a slice of the reads (the full universe is judged in F3)
 StepReqs == WriteReqs \cup FaultReqs \cup {r \in CondReqs : Len(r.p) <= 1} \cup {r \in SimpleReqs \cup PropfindReqs : r.depth \in {"absent", "1"} /\ r.pform \in {"na", "empty"}}
